@@ -1,7 +1,7 @@
 """C16 - IMU preintegration: carried-state completeness, rank normalisation, product direction, composition roles,
 increment slicing, and reachability of the scan primitive's integer-kind rule."""
 import ast
-from ..core import RuleResult, Finding, AnalysisError, dotted, src, norm_construct
+from ..core import RuleResult, Finding, AnalysisError, dotted, src, norm_construct, guarded, guarded_list
 from ..expr import inline_straight, returns_of, dump, subst, rv
 from .. import paths
 from .c12 import ki_check
@@ -14,6 +14,7 @@ def _self_attr_reads(node):
     return {n.attr for n in ast.walk(node) if isinstance(n, ast.Attribute) and dotted(n.value) == 'self' and isinstance(n.ctx, ast.Load)}
 
 
+@guarded
 def rule_carry(repo):
     res = RuleResult('C16.CARRY', 'every buffer read as initial state when init_state is None (pos, rot, vel, cov, Rij) is written back from '
                      'the last frame of this call\'s result on the not-reset path', floor=5)
@@ -66,6 +67,7 @@ def rule_carry(repo):
     return res
 
 
+@guarded
 def rule_rank(repo):
     res = RuleResult('C16.RANK', 'dt, gyro, acc and rot are rebound through _check (rank normalisation to (B, F, H)) before any use other '
                      'than the shape assertion', floor=4)
@@ -91,6 +93,7 @@ def rule_rank(repo):
     return res
 
 
+@guarded
 def rule_dir_comp(repo):
     res = RuleResult('C16.DIR', 'rotation increments are accumulated as a right product (cumprod(..., left=False)) of [identity, Exp(w dt)...]; '
                      'predict composes R0 * dR, v0 + R0 * dv, p0 + R0 * dp + v0 * dt; every returned increment is the [1:] slice of its '
@@ -163,6 +166,7 @@ def _same_sum(a, b):
     return sorted(a.replace('@', '*').split('+')) == sorted(b.replace('@', '*').split('+'))
 
 
+@guarded
 def rule_cov(repo):
     from ..expr import triple_products, is_transpose_of
     res = RuleResult('C16.COV', 'the propagated covariance is a sum of congruences X S X^T (the two outer factors of every triple matrix product in it '
@@ -191,6 +195,7 @@ def rule_cov(repo):
     return res
 
 
+@guarded
 def rule_init(repo):
     res = RuleResult('C16.INIT', 'forward hands integrate() the rotation of the very initial state that predict() composes with (init_state[rot]), '
                      'so gravity is removed in the frame the result is expressed in', floor=1)
@@ -214,6 +219,7 @@ def rule_init(repo):
     return res
 
 
+@guarded
 def rule_dep(repo):
     res = RuleResult('C16.DEP', 'every scan primitive reachable from integrate / propagate_cov satisfies the integer-kind rule of C12 '
                      '(call path reported)', floor=2)
